@@ -2,6 +2,7 @@ package rules
 
 import (
 	"fmt"
+	"go/token"
 	"go/types"
 	"sort"
 
@@ -455,4 +456,23 @@ func poolEscapes(f *ssa.Function, isPut func(*ssa.CallCommon) bool) []ssa.Instru
 		})
 	})
 	return out
+}
+
+
+// sameOrNilAlias: in the return case rc the value v is want - either the very value, or the nil constant returned where
+// want is known to be nil (`if x == nil { return nil }` returns x).
+func sameOrNilAlias(rc core.RetCase, v ssa.Value, want ssa.Value) bool {
+	r := core.Resolve(v)
+	if r == want {
+		return true
+	}
+	if !core.IsNilConst(r) {
+		return false
+	}
+	for _, m := range rc.Cmps() {
+		if m.Op == token.EQL && core.IsNilConst(m.Y) && core.Resolve(m.X) == want {
+			return true
+		}
+	}
+	return false
 }
